@@ -31,6 +31,8 @@ const LANG: SupportLang = SupportLang::JavaScript;
 const SRC: &str = "foo(abc, b1);\n";
 
 pub struct Case {
+  /// JavaScript (sigil `$` kept) or Python (sigil rewritten to the expando char inside the parser)
+  pub lang: SupportLang,
   pub doc: Value,
   pub perturbation: String,
   /// expected error variant ("" = accepted)
@@ -48,7 +50,7 @@ fn wrap_ref(op: &str, target: &str) -> Value {
     "precedes" => json!({"precedes": {"matches": target, "stopBy": "end"}}),
     "follows" => json!({"follows": {"matches": target, "stopBy": "end"}}),
     "ofRule" => json!({"nthChild": {"position": 1, "ofRule": {"matches": target}}}),
-    "stopBy" => json!({"inside": {"kind": "program", "stopBy": {"matches": target}}}),
+    "stopBy" => json!({"inside": {"kind": "expression_statement", "stopBy": {"matches": target}}}),
     _ => json!({"has": {"kind": "identifier", "stopBy": {"matches": target}}}),
   }
 }
@@ -66,7 +68,7 @@ fn decorate(obj: &mut Value, op: &str, rng: &mut Rng, utils: &mut Value) {
       }
       1 => obj["kind"] = json!("identifier"),
       2 => obj["regex"] = json!("a"),
-      3 if op != "not" => obj["not"] = json!({"kind": "number"}),
+      3 if op != "not" => obj["not"] = json!({"kind": "string"}),
       4 if op != "any" => obj["any"] = json!([{"kind": "identifier"}, {"regex": "^1"}]),
       5 if op != "all" => obj["all"] = json!([{"kind": "identifier"}]),
       6 if op != "ofRule" => obj["nthChild"] = json!(1),
@@ -116,7 +118,8 @@ pub fn assemble(rng: &mut Rng, which: usize) -> Case {
   let multi = shape == 1;
   let mut doc = Map::new();
   doc.insert("id".into(), json!("c12"));
-  doc.insert("language".into(), json!("JavaScript"));
+  let lang = if which % 3 == 2 { SupportLang::Python } else { SupportLang::JavaScript };
+  doc.insert("language".into(), json!(if lang == SupportLang::Python { "Python" } else { "JavaScript" }));
   let rule = match shape {
     0 => json!({"pattern": "foo($A, $B)"}),
     1 => json!({"pattern": "foo($$$ARGS)"}),
@@ -399,7 +402,7 @@ pub fn assemble(rng: &mut Rng, which: usize) -> Case {
     _ => false,
   };
   let _ = object_form;
-  Case { doc: Value::Object(doc), perturbation: if applied { tag } else { "none".into() }, expect }
+  Case { lang, doc: Value::Object(doc), perturbation: if applied { tag } else { "none".into() }, expect }
 }
 
 // ---------------------------------------------------------------------------------------
@@ -692,7 +695,7 @@ pub fn c12_accept(ctx: &Ctx, rng: &mut Rng, o: &mut Out) {
     let c = assemble(rng, i);
     let text = c.doc.to_string();
     let mut job = api_job("rule", &text, &pool, &[]);
-    job["src"] = json!([["JavaScript", SRC]]);
+    job["src"] = json!([[if c.lang == SupportLang::Python { "Python" } else { "JavaScript" }, SRC]]);
     job["fixinfo"] = json!(SRC);
     jobs.push(job);
     cases.push(c);
@@ -706,7 +709,7 @@ pub fn c12_accept(ctx: &Ctx, rng: &mut Rng, o: &mut Out) {
     *tally.entry(format!("{}/{}", c.perturbation.split(':').next().unwrap_or(""), if load == "err" { v.clone() } else { load.clone() })).or_default() += 1;
     let text = c.doc.to_string();
     // correspondence 1: accept / reject and the error variant
-    let facts = doc_facts(&c.doc, LANG, &[]).ok();
+    let facts = doc_facts(&c.doc, c.lang, &[]).ok();
     let order_free = c.doc.get("utils").and_then(|u| u.as_object()).map(|u| u.len() <= 2).unwrap_or(true);
     let cmpv = order_free;
     let args = match &facts {
@@ -747,7 +750,7 @@ pub fn c12_accept(ctx: &Ctx, rng: &mut Rng, o: &mut Out) {
       let template = fix.as_str().or_else(|| fix.get("template").and_then(|t| t.as_str())).unwrap_or("").to_string();
       let tkeys: BTreeSet<String> = c.doc.get("transform").and_then(|t| t.as_object()).map(|t| t.keys().cloned().collect()).unwrap_or_default();
       let keys: Vec<&String> = tkeys.iter().collect();
-      if let Ok(ff) = fix_facts(Some(fix), LANG) {
+      if let Ok(ff) = fix_facts(Some(fix), c.lang) {
         o.op(
           "fix_apply",
           json!({"src": SRC, "start": fi["ms"], "fix": ff, "keys": keys, "single": fi["single"], "multi": fi["multi"], "transformed": fi["transformed"], "yaml": text}),
